@@ -60,6 +60,15 @@ func (p *c15) Init(tier string) {
 	for _, v := range []uint64{0, 1, math.MaxUint32, uint64(two53)} {
 		add(v)
 	}
+	// the ends of the 64-bit ranges (all exactly representable as float64): values at or beyond 2^63
+	// wrap when converted to a signed type
+	add(uint64(1) << 63)
+	add(uint64(3) << 62)
+	add(uint(1) << 63)
+	add(int64(math.MinInt64))
+	add(int(math.MinInt64))
+	add(float64(1 << 63))
+	add(-float64(1 << 63))
 	for _, v := range []float32{-1, -0.5, 0, 1, 1.5, 2.5, 128, 65536} {
 		add(v)
 	}
@@ -369,7 +378,7 @@ func (p *c15) runSQL() *core.CaseResult {
 
 func (p *c15) Meta() core.Meta {
 	return core.Meta{
-		Rule: "one case per value a of the finite domain D (every Go numeric type x {min,-1,0,1,max of the narrow types, +-2^53 for 64-bit, fractions} and strings); the case evaluates Compare on all pairs (a,b),(b,a) and all triples (a,b,c) of one kind; every case is non-trivial (each value meets values of every other type); plus a purity case (all pairs of an extended domain in three evaluation orders) and an SQL case (ORDER BY ASC/DESC over every permutation of 5-element mixed columns must follow Compare's order)",
+		Rule: "one case per value a of the finite domain D (every Go numeric type x {min,-1,0,1,max of the narrow types, +-2^53 and -2^63, 2^63, 3*2^62 for 64-bit, fractions} and strings); the case evaluates Compare on all pairs (a,b),(b,a) and all triples (a,b,c) of one kind; every case is non-trivial (each value meets values of every other type); plus a purity case (all pairs of an extended domain in three evaluation orders) and an SQL case (ORDER BY ASC/DESC over every permutation of 5-element mixed columns must follow Compare's order)",
 		Assumptions: []string{
 			"numbers are compared as exact rationals (big.Rat); strings bytewise; number vs string by the number's %v text, abstaining when %v is not plain decimal notation",
 			"values beyond +-2^53 in 64-bit types are outside the property ('exactly-representable range')",
